@@ -33,6 +33,16 @@ class Resolver:
             elif isinstance(n, ast.arg):
                 counts[n.arg] = counts.get(n.arg, 0) + 2
         self.counts = counts
+        self.mutated = set()
+        for n in ast.walk(fn):
+            if isinstance(n, ast.Call) and isinstance(n.func, ast.Attribute) and isinstance(n.func.value, ast.Name) \
+                    and n.func.attr in ("append", "extend", "insert", "pop", "remove", "clear", "sort", "reverse", "update", "add", "discard",
+                                        "setdefault", "popitem", "popleft", "appendleft"):
+                self.mutated.add(n.func.value.id)
+            if isinstance(n, ast.Subscript) and isinstance(n.ctx, (ast.Store, ast.Del)) and isinstance(n.value, ast.Name):
+                self.mutated.add(n.value.id)
+            if isinstance(n, ast.AugAssign) and isinstance(n.target, ast.Name):
+                self.mutated.add(n.target.id)
         # names that are accumulated into or bound by loops / with / except are never resolved to one of their assignments
         self.unstable = set()
         for n in ast.walk(fn):
@@ -72,7 +82,9 @@ class Resolver:
         pairs: List[Tuple[str, ast.AST]] = []
         if isinstance(n, ast.Assign) and len(n.targets) == 1 and isinstance(n.targets[0], ast.Name):
             # a freshly built container is an object with identity (it is filled later), not a value to substitute
-            if not _is_container_display(n.value):
+            # ... unless it is built in one go (a comprehension) and never changed afterwards
+            if not _is_container_display(n.value) or (isinstance(n.value, (ast.ListComp, ast.SetComp, ast.DictComp))
+                                                      and n.targets[0].id not in self.mutated):
                 pairs.append((n.targets[0].id, n.value))
         elif isinstance(n, ast.Assign) and len(n.targets) == 1 and isinstance(n.targets[0], (ast.Tuple, ast.List)):
             t = n.targets[0]
@@ -164,4 +176,33 @@ def split_atom(atom: str) -> Optional[Tuple[str, str, str]]:
                 depth -= 1
             elif depth == 0 and atom.startswith(op, i):
                 return atom[:i], op.strip(), atom[i + len(op):]
+    return None
+
+
+def elementwise(fn: ast.AST, value: ast.AST):
+    """
+    How the sequence `value` is built element by element: (element expression, loop variable text, iterated expression, filtered?)
+    for a comprehension / generator (possibly wrapped in tuple() / list()) or for a local list that starts empty and is filled by a
+    single `append` inside one loop; None if `value` is not built that way.
+    """
+    from .guards import path_conditions
+    v = value
+    while isinstance(v, ast.Call) and norm(v.func) in ("tuple", "list") and len(v.args) == 1:
+        v = v.args[0]
+    if isinstance(v, (ast.ListComp, ast.GeneratorExp)) and len(v.generators) == 1:
+        g = v.generators[0]
+        return v.elt, norm(g.target), g.iter, bool(g.ifs)
+    if isinstance(v, ast.Name):
+        inits = [a for a in ast.walk(fn) if isinstance(a, ast.Assign) and len(a.targets) == 1 and norm(a.targets[0]) == v.id]
+        apps = [(lp, c) for lp in ast.walk(fn) if isinstance(lp, ast.For) for c in ast.walk(lp) if isinstance(c, ast.Call)
+                and isinstance(c.func, ast.Attribute) and c.func.attr == "append" and norm(c.func.value) == v.id and len(c.args) == 1]
+        # innermost loop only
+        apps = [(lp, c) for lp, c in apps if not any(l2 is not lp and any(x is l2 for x in ast.walk(lp)) and any(x is c for x in ast.walk(l2))
+                                                      for l2, _ in apps)]
+        other = [c for c in ast.walk(fn) if isinstance(c, ast.Call) and isinstance(c.func, ast.Attribute) and norm(c.func.value) == v.id
+                 and c.func.attr not in ("append", "copy", "index", "count")]
+        if len(inits) == 1 and isinstance(inits[0].value, ast.List) and not inits[0].value.elts and len(apps) == 1 and not other:
+            lp, c = apps[0]
+            conds = path_conditions(lp.body, c) or []
+            return c.args[0], norm(lp.target), lp.iter, bool(conds)
     return None
